@@ -364,7 +364,7 @@ func (r *c5Run) genEvent() c5Event {
 	ev.level = []zerolog.Level{zerolog.InfoLevel, zerolog.ErrorLevel, zerolog.DebugLevel, zerolog.WarnLevel, zerolog.NoLevel}[r.ch.Intn(5)]
 	ev.ops = genOps(r.ch, r.ch.Intn(4), 1, ev.id+"_")
 	if r.ch.Chance(1, 4) {
-		ev.ops = append(ev.ops, fop{Kind: fProbeObj + r.ch.Intn(4), Key: ev.id + "_probe"})
+		ev.ops = append(ev.ops, fop{Kind: fProbeObj + r.ch.Intn(nProbeKinds), Key: ev.id + "_probe"})
 	}
 	ev.probes = r.ch.Chance(1, 2)
 	ev.fin = r.ch.Intn(2)
@@ -467,7 +467,7 @@ func (r *c5Run) genCtxOps(tag string) []fop {
 		ops = append(ops, fop{Kind: fStr, Key: tag + "pad", S: strings.Repeat("p", 100+r.ch.Intn(300))})
 	}
 	if r.ch.Chance(1, 4) {
-		ops = append(ops, fop{Kind: fProbeObj + r.ch.Intn(4), Key: tag + "probe"})
+		ops = append(ops, fop{Kind: fProbeObj + r.ch.Intn(nProbeKinds), Key: tag + "probe"})
 	}
 	return ops
 }
